@@ -38,7 +38,7 @@ def generate(run_seed, tier):
         fams = list(W.FAMILIES)
         rw.shuffle(fams)
         fams = [f for f in fams[: rw.randint(8, len(fams))] if f != "cut"]
-        fams += ["project", "assign", "filter", "dedup", "project", "assign", "rename"]
+        fams += ["project", "assign", "filter", "dedup", "project", "assign", "rename", "merge", "merge_filter", "merge_filter"]
         refw = reference_world()
         suspicious = []
 
@@ -214,7 +214,7 @@ def _regenerate_check(spec, ses):
     fams = list(W.FAMILIES)
     rw.shuffle(fams)
     fams = [f for f in fams[: rw.randint(8, len(fams))] if f != "cut"]
-    fams += ["project", "assign", "filter", "dedup", "project", "assign", "rename"]
+    fams += ["project", "assign", "filter", "dedup", "project", "assign", "rename", "merge", "merge_filter", "merge_filter"]
     refw = reference_world()
     found = []
 
